@@ -7,6 +7,10 @@ props = [json.loads(l) for l in open(os.path.join(HERE, "properties.jsonl"))]
 TECH = "bounded symbolic execution of rustc MIR (mirsym) decided by z3; counterexamples replayed natively"
 
 CLAIMED = {
+ "C08": dict(
+   text="Bounded model checking of the real comparison code: CommitTree::{append,commit,head,proof,compare} and CommitProof::verify_leaves are executed from the MIR of the current tree for every pair of sequence lengths up to the bound (4x4 quick, 7x7 thorough) with symbolic leaf identifiers, so one solver query covers every equality pattern between the two logs (repeats, equal leaves over different prefixes). The oracle is the prefix relation on the raw sequences; z3 decides each implication per path, counterexamples are replayed on the real CommitTree. The tests use one pair of trees with unique leaves where one extends the other.",
+   note="Trusted: rustc MIR, the mirsym interpreter, the ideal-hash port of rs_merkle 1.5 (compared with the real crate on every run: roots, leaves, proofs, verification matrix for sizes <= 8, batched commits, rollbacks), collision-freeness of SHA-256, z3. Bounds: sequence lengths. Outside: proof (de)serialisation (C14/C15), the network around the ancestor scan.",
+   design="DESIGN.md section 3, C08"),
  "C15": dict(
    text="Bounded model checking of the real decoders: every binary Decodable entry point is executed symbolically from the MIR rustc emits for the current tree over an input buffer of symbolic length (<=64 quick / <=200 thorough) and unconstrained content; z3 decides every branch, so 'no panic, no oversized allocation' holds for every byte string within the bound or a concrete witness is produced and replayed against the natively built crates. Unit tests only decode what they just encoded; the solver reaches the tags and lengths no encoder emits.",
    note="Trusted: rustc's MIR for the nightly in this image, the mirsym interpreter and its library models (BinaryReader/Writer, std collections, time, uuid; each path's witness is re-run natively and must agree), z3. Bounds: input length, loop bound 48. Outside: zip archives, URLs, JSON bodies, the HTTP server loop, prost.",
